@@ -1,39 +1,19 @@
-(* Proofs about Model/Multiline.v (C02): the embedding round trip over the safe alphabet. *)
-From Coq Require Import List String Ascii Bool Arith Lia.
+(* Proofs about Model/Multiline.v (C02): the embedding round trip of the rewriter of 0f971a2,
+   for lines over all bytes (line feed excluded: lines come from str.split on it). *)
+From Coq Require Import List String Ascii Bool Arith Lia NArith.
 From AC Require Import Base.Strs Base.Sexp Model.Multiline.
 Import ListNotations.
 Local Open Scope char_scope.
 Local Open Scope nat_scope.
 Local Open Scope list_scope.
 
-(* ---------------------------------------------------------------- the safe alphabet *)
-(* printable, not the single quote, not the backslash (bytes >= 0x80 included) *)
-Definition safe_char (c : ascii) : bool :=
-  (32 <=? code c) && negb (code c =? 127) && negb (ceq c SQ) && negb (ceq c BS).
-
-Fixpoint has_dq3 (l : chars) : bool :=
-  match l with
-  | [] => false
-  | c :: r => is_prefix DQ3 l || has_dq3 r
-  end.
-
-Definition safe_line (l : chars) : bool := forallb safe_char l && negb (has_dq3 l).
-
+(* ---------------------------------------------------------------- characters and membership *)
 Lemma ceq_eq a b : ceq a b = true <-> a = b.
 Proof. apply Ascii.eqb_eq. Qed.
 Lemma ceq_refl a : ceq a a = true.
 Proof. apply Ascii.eqb_refl. Qed.
 Lemma ceq_neq a b : ceq a b = false <-> a <> b.
 Proof. apply Ascii.eqb_neq. Qed.
-
-Lemma safe_char_facts c : safe_char c = true ->
-  32 <= code c /\ code c <> 127 /\ c <> SQ /\ c <> BS /\ c <> NL.
-Proof.
-  unfold safe_char. intro H. repeat (apply andb_true_iff in H as [H ?]).
-  apply Nat.leb_le in H. apply negb_true_iff in H0, H1, H2.
-  apply Nat.eqb_neq in H2. apply ceq_neq in H0, H1. repeat split; auto.
-  intro E. subst c. vm_compute in H. lia.
-Qed.
 
 Lemma has_false c l : has c l = false <-> (forall x, In x l -> x <> c).
 Proof.
@@ -57,397 +37,48 @@ Proof.
   unfold ceq in *. rewrite Ascii.eqb_sym. exact H1.
 Qed.
 
-Lemma safe_no c l : forallb safe_char l = true -> (c = SQ \/ c = BS \/ c = NL) -> has c l = false.
-Proof.
-  intros Hs Hc. apply has_false. intros x Hx. rewrite forallb_forall in Hs.
-  destruct (safe_char_facts x (Hs x Hx)) as (_ & _ & H1 & H2 & H3). intuition congruence.
-Qed.
-
-(* ---------------------------------------------------------------- repr of a safe line *)
-Lemma repr_char_safe c : safe_char c = true -> repr_char SQ c = [c].
-Proof.
-  intro H. destruct (safe_char_facts c H) as (H32 & H127 & Hq & Hb & _).
-  unfold repr_char. apply ceq_neq in Hq, Hb. rewrite Hq, Hb. simpl.
-  destruct (code c =? 9) eqn:E1; [apply Nat.eqb_eq in E1; lia|].
-  destruct (code c =? 10) eqn:E2; [apply Nat.eqb_eq in E2; lia|].
-  destruct (code c =? 13) eqn:E3; [apply Nat.eqb_eq in E3; lia|].
-  destruct (code c <? 32) eqn:E4; [apply Nat.ltb_lt in E4; lia|].
-  destruct (code c =? 127) eqn:E5; [apply Nat.eqb_eq in E5; lia|]. reflexivity.
-Qed.
-
-Lemma flat_map_repr_safe l : forallb safe_char l = true -> flat_map (repr_char SQ) l = l.
-Proof.
-  induction l as [|c l IH]; simpl; [reflexivity|]. intro H. apply andb_true_iff in H as [H1 H2].
-  rewrite repr_char_safe by exact H1. rewrite IH by exact H2. reflexivity.
-Qed.
-
-(* the constant of a safe line *)
-Definition Q (l : chars) : chars := SQ :: l ++ [BS; "n"; SQ].
-
-Lemma piece_safe l : forallb safe_char l = true -> piece l = Q l.
-Proof.
-  intro H. unfold piece, py_repr, repr_quote.
-  assert (E : has SQ (l ++ [NL]) = false).
-  { rewrite has_app, (safe_no SQ l H) by auto. reflexivity. }
-  rewrite E. simpl. unfold Q. f_equal. rewrite flat_map_app, flat_map_repr_safe by exact H.
-  rewrite <- app_assoc. reflexivity.
-Qed.
-
-Lemma pieces_safe lines : Forall (fun l => forallb safe_char l = true) lines ->
-  pieces lines = flat_map Q lines.
-Proof.
-  unfold pieces. induction 1; cbn [flat_map]; [reflexivity|]. rewrite piece_safe, IHForall by assumption. reflexivity.
-Qed.
-
-(* ---------------------------------------------------------------- the regex on the statement *)
-Lemma upto_app c a r : has c a = false -> upto c (a ++ c :: r) = Some (a ++ [c], r).
-Proof.
-  induction a as [|x a IH]; simpl; intro H.
-  - rewrite ceq_refl. reflexivity.
-  - apply has_cons_false in H as [H1 H2]. rewrite H1, IH by exact H2. reflexivity.
-Qed.
-
-Lemma upto_none c l : has c l = false -> upto c l = None.
-Proof.
-  induction l as [|x l IH]; simpl; intro H; [reflexivity|].
-  apply has_cons_false in H as [H1 H2]. rewrite H1, IH by exact H2. reflexivity.
-Qed.
-
-Lemma SQ_not_ws : is_ws SQ = false. Proof. reflexivity. Qed.
-
-Lemma next_group_Q l rest : has SQ l = false -> next_group (Q l ++ rest) = Some (Q l, rest).
-Proof.
-  intro H. unfold next_group, Q. simpl.
-  replace ((l ++ [BS; "n"; SQ]) ++ rest) with ((l ++ [BS; "n"]) ++ SQ :: rest)
-    by (rewrite <- !app_assoc; reflexivity).
-  rewrite upto_app.
-  - rewrite <- !app_assoc. reflexivity.
-  - rewrite has_app, H. reflexivity.
-Qed.
-
-Lemma next_group_none l : has SQ l = false -> next_group l = None.
-Proof.
-  intro H. unfold next_group.
-  destruct (drop_while is_ws l) as [|c r] eqn:E; [reflexivity|].
-  assert (Hin : In c l).
-  { clear H. revert E. induction l as [|x l IH]; simpl; [discriminate|].
-    destruct (is_ws x); intro E; [right; apply IH; exact E | inversion E; left; reflexivity]. }
-  destruct (ceq c SQ) eqn:Ec; [|reflexivity].
-  apply ceq_eq in Ec. subst. exfalso. exact (proj1 (has_false SQ l) H SQ Hin eq_refl).
-Qed.
-
-Lemma find_j_skip x g r rest : has SQ x = false -> next_group r = Some (g, rest) ->
-  find_j (x ++ SQ :: r) = Some (x ++ SQ :: g, rest).
-Proof.
-  intros Hx Hg. induction x as [|c x IH]; simpl.
-  - rewrite Hg. reflexivity.
-  - apply has_cons_false in Hx as [H1 H2]. rewrite H1, IH by exact H2. reflexivity.
-Qed.
-
-Lemma Q_length l : 1 <= List.length (Q l).
-Proof. unfold Q. simpl. lia. Qed.
-
-Lemma chain_S f l : chain (S f) l = match next_group l with
-                                     | Some (g, rest) => let '(a, b) := chain f rest in (g ++ a, b)
-                                     | None => ([], l)
-                                     end.
-Proof. reflexivity. Qed.
-
-Lemma chain_Q lines suf : Forall (fun l => has SQ l = false) lines -> has SQ suf = false ->
-  forall fuel, List.length lines <= fuel -> chain fuel (flat_map Q lines ++ suf) = (flat_map Q lines, suf).
-Proof.
-  intros Hl Hs. induction Hl as [|l ls H1 H2 IH]; intros fuel Hf; cbn [flat_map].
-  - destruct fuel; [reflexivity|]. rewrite chain_S. simpl app. rewrite next_group_none by exact Hs. reflexivity.
-  - destruct fuel as [|fuel]; [simpl in Hf; lia|]. rewrite chain_S.
-    rewrite <- app_assoc. rewrite next_group_Q by exact H1.
-    rewrite IH by (simpl in Hf; lia). reflexivity.
-Qed.
-
-Lemma flat_map_Q_length lines : List.length lines <= List.length (flat_map Q lines).
-Proof.
-  induction lines as [|l ls IH]; simpl; [lia|]. rewrite app_length. pose proof (Q_length l). simpl in *. lia.
-Qed.
-
-(* the statement: pre = a = b, no quote in it *)
-Record good_prefix (a b : chars) : Prop :=
-  { gp_eq : has EQc a = false; gp_qa : has SQ a = false; gp_qb : has SQ b = false }.
-
-Lemma find_match_gen a b x1 g2 R gs r3 :
-  has EQc a = false -> has SQ b = false -> has SQ x1 = false ->
-  next_group (g2 ++ R) = Some (g2, R) -> chain (List.length R) R = (gs, r3) ->
-  find_match (a ++ EQc :: b ++ SQ :: x1 ++ SQ :: g2 ++ R)
-  = Some ((a ++ [EQc]) ++ (b ++ [SQ]) ++ (x1 ++ SQ :: g2) ++ gs ++ take_while is_ws r3,
-          drop_while is_ws r3).
-Proof.
-  intros He Hb Hx Hg Hc. unfold find_match.
-  rewrite upto_app by exact He. rewrite upto_app by exact Hb.
-  rewrite (find_j_skip x1 g2 (g2 ++ R) R Hx Hg). rewrite Hc. reflexivity.
-Qed.
-
-Lemma stmt_shape a b l1 l2 ls suf :
-  (a ++ EQc :: b) ++ flat_map Q (l1 :: l2 :: ls) ++ suf
-  = a ++ EQc :: b ++ SQ :: (l1 ++ [BS; "n"]) ++ SQ :: Q l2 ++ (flat_map Q ls ++ suf).
-Proof. cbn [flat_map]. unfold Q at 1. repeat (rewrite <- app_assoc; cbn [app]). reflexivity. Qed.
-
-Lemma find_match_stmt a b l1 l2 ls suf :
-  good_prefix a b -> Forall (fun l => has SQ l = false) (l1 :: l2 :: ls) -> has SQ suf = false ->
-  find_match ((a ++ EQc :: b) ++ flat_map Q (l1 :: l2 :: ls) ++ suf)
-  = Some ((a ++ EQc :: b) ++ flat_map Q (l1 :: l2 :: ls) ++ take_while is_ws suf, drop_while is_ws suf).
-Proof.
-  intros [He Hqa Hqb] Hl Hs. inversion Hl as [|? ? H1 Hl']; subst. inversion Hl' as [|? ? H2 Hl'']; subst.
-  rewrite stmt_shape.
-  rewrite (find_match_gen a b (l1 ++ [BS; "n"]) (Q l2) (flat_map Q ls ++ suf) (flat_map Q ls) suf).
-  - f_equal. f_equal. cbn [flat_map]. unfold Q at 3. repeat (rewrite <- app_assoc; cbn [app]). reflexivity.
-  - exact He.
-  - exact Hqb.
-  - rewrite has_app, H1. reflexivity.
-  - apply next_group_Q. exact H2.
-  - apply chain_Q; [exact Hl'' | exact Hs |]. rewrite app_length. pose proof (flat_map_Q_length ls). lia.
-Qed.
-
-Lemma upto_rest_incl c : forall l a r, upto c l = Some (a, r) -> incl r l.
-Proof.
-  induction l as [|y l IH]; simpl; intros a r E; [discriminate|].
-  destruct (ceq y c).
-  - inversion E; subst. intros x Hx. right. exact Hx.
-  - destruct (upto c l) as [[a' b']|] eqn:E'; [|discriminate]. inversion E; subst.
-    intros x Hx. right. eapply IH; [reflexivity | exact Hx].
-Qed.
-
-Lemma find_match_none l : has SQ l = false -> find_match l = None.
-Proof.
-  intro H. unfold find_match. destruct (upto EQc l) as [[a r0]|] eqn:E; [|reflexivity].
-  assert (Hr : has SQ r0 = false).
-  { apply has_false. intros x Hx. apply (proj1 (has_false SQ l) H).
-    eapply upto_rest_incl; eassumption. }
-  rewrite upto_none by exact Hr. reflexivity.
-Qed.
-
-(* ---------------------------------------------------------------- the quoted span *)
-Lemma split_last_quote_none l : has SQ l = false -> split_last_quote l = None.
-Proof.
-  induction l as [|c l IH]; intro H; [reflexivity|].
-  apply has_cons_false in H as [H1 H2]. cbn [split_last_quote]. rewrite IH by exact H2. rewrite H1. reflexivity.
-Qed.
-
-Lemma split_last_quote_app x w : has SQ w = false ->
-  split_last_quote (x ++ SQ :: w) = Some (x ++ [SQ], w).
-Proof.
-  intro Hw. induction x as [|c x IH]; cbn [app split_last_quote].
-  - rewrite split_last_quote_none by exact Hw. rewrite ceq_refl. reflexivity.
-  - rewrite IH. reflexivity.
-Qed.
-
-(* the pieces of a non-empty list of lines start and end with a quote *)
-Lemma flat_map_Q_ends lines : lines <> [] -> exists x, flat_map Q lines = SQ :: x ++ [SQ].
-Proof.
-  induction lines as [|l ls IH]; intro H; [congruence|].
-  destruct ls as [|l' ls'].
-  - exists (l ++ [BS; "n"]). simpl. rewrite app_nil_r. unfold Q. rewrite <- app_assoc. reflexivity.
-  - destruct IH as [x Hx]; [discriminate|]. cbn [flat_map] in *. rewrite Hx.
-    exists (l ++ [BS; "n"; SQ] ++ SQ :: x). unfold Q. cbn [app]. f_equal.
-    repeat (rewrite <- app_assoc; cbn [app]). reflexivity.
-Qed.
-
-Lemma quoted_span_stmt pre P w : has SQ pre = false -> has SQ w = false ->
-  (exists x, P = SQ :: x ++ [SQ]) -> quoted_span (pre ++ P ++ w) = Some P.
-Proof.
-  intros Hp Hw [x ->]. unfold quoted_span. cbn [app]. rewrite upto_app by exact Hp.
-  replace ((x ++ [SQ]) ++ w) with (x ++ SQ :: w) by (rewrite <- app_assoc; reflexivity).
-  rewrite split_last_quote_app by exact Hw. reflexivity.
-Qed.
-
-(* ---------------------------------------------------------------- str.replace *)
-Lemma is_prefix_app p l : is_prefix p (p ++ l) = true.
-Proof. induction p as [|c p IH]; simpl; [reflexivity|]. rewrite ceq_refl. exact IH. Qed.
-
-Lemma skipn_app_exact {X} (p l : list X) : skipn (List.length p) (p ++ l) = l.
-Proof. induction p; simpl; auto. Qed.
-
-Lemma replace_all_noq fuel s x new : has SQ s = false ->
-  replace_all fuel s (SQ :: x) new = s.
-Proof.
-  revert s. induction fuel as [|f IH]; intros s H; [reflexivity|].
-  destruct s as [|c s]; [reflexivity|]. apply has_cons_false in H as [H1 H2].
-  cbn [replace_all is_prefix]. unfold ceq in *. rewrite Ascii.eqb_sym in H1. rewrite H1. cbn [andb].
-  rewrite IH by exact H2. reflexivity.
-Qed.
-
-Lemma replace_all_stmt pre x suf new fuel : has SQ pre = false -> has SQ suf = false ->
-  List.length pre < fuel ->
-  replace_all fuel (pre ++ (SQ :: x) ++ suf) (SQ :: x) new = pre ++ new ++ suf.
-Proof.
-  intros Hp Hs. revert fuel. induction pre as [|c pre IH]; intros fuel Hf.
-  - destruct fuel as [|f]; [simpl in Hf; lia|]. cbn [app].
-    change (SQ :: x ++ suf) with ((SQ :: x) ++ suf).
-    unfold replace_all; fold replace_all. rewrite is_prefix_app, skipn_app_exact.
-    rewrite replace_all_noq by exact Hs. reflexivity.
-  - destruct fuel as [|f]; [simpl in Hf; lia|]. apply has_cons_false in Hp as [H1 H2].
-    cbn [app replace_all is_prefix]. unfold ceq in *. rewrite Ascii.eqb_sym in H1. rewrite H1. cbn [andb].
-    f_equal. apply IH; [exact H2 | simpl in Hf; lia].
-Qed.
-
-(* ---------------------------------------------------------------- convert_to_multiline_string *)
-Lemma unescape_nl_cons c r : ceq c BS = false -> unescape_nl (c :: r) = c :: unescape_nl r.
-Proof. intro H. destruct r as [|d r']; cbn [unescape_nl]; [reflexivity|]. rewrite H. reflexivity. Qed.
-
-Lemma unescape_nl_skip x y : has BS x = false -> unescape_nl (x ++ y) = x ++ unescape_nl y.
-Proof.
-  induction x as [|c x IH]; intro H; [reflexivity|].
-  apply has_cons_false in H as [H1 H2]. cbn [app].
-  rewrite unescape_nl_cons by exact H1. rewrite IH by exact H2. reflexivity.
-Qed.
-
-Lemma unescape_nl_bsn r : unescape_nl (BS :: "n" :: r) = NL :: unescape_nl r.
-Proof. reflexivity. Qed.
-
-(* the constant of a line after replace("\\n", "\n") *)
-Definition Qn (l : chars) : chars := SQ :: l ++ [NL; SQ].
-
-Lemma unescape_Q lines : Forall (fun l => has BS l = false) lines ->
-  unescape_nl (flat_map Q lines) = flat_map Qn lines.
-Proof.
-  induction 1 as [|l ls H1 H2 IH]; [reflexivity|]. cbn [flat_map]. unfold Q at 1, Qn at 1.
-  change (SQ :: l ++ [BS; "n"; SQ]) with ([SQ] ++ l ++ [BS; "n"; SQ]).
-  rewrite <- !app_assoc. rewrite (unescape_nl_skip [SQ]) by reflexivity.
-  rewrite unescape_nl_skip by exact H1. cbn [app]. rewrite unescape_nl_bsn.
-  change (SQ :: flat_map Q ls) with ([SQ] ++ flat_map Q ls).
-  rewrite (unescape_nl_skip [SQ]) by reflexivity. rewrite IH. cbn [app]. rewrite <- app_assoc. reflexivity.
-Qed.
-
-Lemma drop_quotes_app a b : drop_quotes (a ++ b) = drop_quotes a ++ drop_quotes b.
-Proof. unfold drop_quotes. apply filter_app. Qed.
-
-Lemma drop_quotes_noq l : has SQ l = false -> drop_quotes l = l.
-Proof.
-  unfold drop_quotes. induction l as [|c l IH]; intro H; [reflexivity|].
-  apply has_cons_false in H as [H1 H2]. cbn [filter]. rewrite H1. cbn [negb]. rewrite IH by exact H2. reflexivity.
-Qed.
-
-Lemma drop_quotes_Qn lines : Forall (fun l => has SQ l = false) lines ->
-  drop_quotes (flat_map Qn lines) = joined lines.
-Proof.
-  unfold joined. induction 1 as [|l ls H1 H2 IH]; [reflexivity|]. cbn [flat_map]. unfold Qn at 1.
-  change (SQ :: l ++ [NL; SQ]) with ([SQ] ++ l ++ [NL] ++ [SQ]).
-  rewrite !drop_quotes_app, IH. rewrite (drop_quotes_noq l) by exact H1.
-  change (drop_quotes [SQ]) with (@nil ascii). change (drop_quotes [NL]) with [NL]. cbn [app].
-  reflexivity.
-Qed.
-
-Lemma joined_ends lines : lines <> [] -> ends_with_nl (joined lines) = true.
-Proof.
-  intro H. destruct (exists_last H) as (ls & l & ->). unfold joined, ends_with_nl.
-  rewrite flat_map_app. cbn [flat_map]. rewrite app_nil_r, !rev_app_distr. reflexivity.
-Qed.
-
-Lemma lines_keep_line l r : has NL l = false -> lines_keep (l ++ NL :: r) = (l ++ [NL]) :: lines_keep r.
-Proof.
-  induction l as [|c l IH]; intro H.
-  - cbn [app lines_keep]. rewrite ceq_refl. reflexivity.
-  - apply has_cons_false in H as [H1 H2]. cbn [app lines_keep]. rewrite H1, IH by exact H2. reflexivity.
-Qed.
-
-(* one line of the indented text *)
-Definition ind_line (k : nat) (l : chars) : chars :=
-  if blank (l ++ [NL]) then l ++ [NL] else spaces k ++ l ++ [NL].
-
-Definition indented (k : nat) (lines : list chars) : chars := flat_map (ind_line k) lines.
-
-Lemma indent_joined k lines : Forall (fun l => has NL l = false) lines ->
-  indent_text (spaces k) (joined lines ++ DQ3) = indented k lines ++ spaces k ++ DQ3.
-Proof.
-  unfold indent_text, indented, joined. induction 1 as [|l ls H1 H2 IH].
-  - cbn. rewrite app_nil_r. reflexivity.
-  - cbn [flat_map]. rewrite <- !app_assoc. cbn [app]. rewrite lines_keep_line by exact H1.
-    cbn [flat_map]. rewrite IH. reflexivity.
-Qed.
-
-Lemma convert_pieces lines k off : lines <> [] -> Forall (fun l => forallb safe_char l = true) lines ->
-  convert (flat_map Q lines) k off = DQ3 ++ NL :: indented (k + off) lines ++ spaces (k + off) ++ DQ3.
-Proof.
-  intros Hne Hs. unfold convert.
-  assert (Hq : Forall (fun l => has SQ l = false) lines)
-    by (eapply Forall_impl; [|exact Hs]; intros l H; apply safe_no; auto).
-  assert (Hb : Forall (fun l => has BS l = false) lines)
-    by (eapply Forall_impl; [|exact Hs]; intros l H; apply safe_no; auto).
-  assert (Hn : Forall (fun l => has NL l = false) lines)
-    by (eapply Forall_impl; [|exact Hs]; intros l H; apply safe_no; auto).
-  rewrite unescape_Q by exact Hb. rewrite drop_quotes_Qn by exact Hq.
-  rewrite joined_ends by exact Hne. rewrite indent_joined by exact Hn. reflexivity.
-Qed.
-
-(* ---------------------------------------------------------------- format_line on the statement *)
 Lemma has_incl c a b : incl a b -> has c b = false -> has c a = false.
 Proof. intros Hi Hb. apply has_false. intros x Hx. apply (proj1 (has_false c b) Hb). apply Hi. exact Hx. Qed.
 
-Lemma take_while_incl p l : incl (take_while p l) l.
-Proof.
-  induction l as [|c l IH]; simpl; [intros x []|]. destruct (p c); [|intros x []].
-  intros x [<-|Hx]; [left; reflexivity | right; apply IH; exact Hx].
-Qed.
-
-Lemma drop_while_incl p l : incl (drop_while p l) l.
-Proof.
-  induction l as [|c l IH]; simpl; [intros x []|]. destruct (p c); [|intros x Hx; exact Hx].
-  intros x Hx. right. apply IH. exact Hx.
-Qed.
-
-Lemma leading_ws_prefix a b x : leading_ws ((a ++ EQc :: b) ++ x) = leading_ws (a ++ EQc :: b).
-Proof.
-  unfold leading_ws. f_equal. induction a as [|c a IH]; cbn [app take_while].
-  - reflexivity.
-  - destruct (is_ws c); [rewrite IH|]; reflexivity.
-Qed.
-
-Lemma format_iter_S f rest cur off :
-  format_iter (S f) rest cur off =
-  match find_match rest with
-  | None => cur
-  | Some (t, rest') =>
-      match quoted_span t with
-      | Some span => format_iter f rest' (replace_all (S (List.length cur)) cur span
-                                                     (convert span (leading_ws t) off)) off
-      | None => format_iter f rest' cur off
-      end
-  end.
-Proof. reflexivity. Qed.
-
-Lemma format_line_stmt a b l1 l2 ls suf off :
-  good_prefix a b -> Forall (fun l => forallb safe_char l = true) (l1 :: l2 :: ls) -> has SQ suf = false ->
-  format_line ((a ++ EQc :: b) ++ flat_map Q (l1 :: l2 :: ls) ++ suf) off
-  = (a ++ EQc :: b) ++ (DQ3 ++ NL :: indented (leading_ws (a ++ EQc :: b) + off) (l1 :: l2 :: ls)
-                            ++ spaces (leading_ws (a ++ EQc :: b) + off) ++ DQ3) ++ suf.
-Proof.
-  intros Hg Hs Hsuf.
-  assert (Hq : Forall (fun l => has SQ l = false) (l1 :: l2 :: ls))
-    by (eapply Forall_impl; [|exact Hs]; intros l H; apply safe_no; auto).
-  assert (Hpre : has SQ (a ++ EQc :: b) = false).
-  { rewrite has_app. destruct Hg as [_ Ha Hb]. rewrite Ha. cbn [orb].
-    change (EQc :: b) with ([EQc] ++ b). rewrite has_app, Hb. reflexivity. }
-  assert (Hw : has SQ (take_while is_ws suf) = false)
-    by (eapply has_incl; [apply take_while_incl | exact Hsuf]).
-  assert (Hd : has SQ (drop_while is_ws suf) = false)
-    by (eapply has_incl; [apply drop_while_incl | exact Hsuf]).
-  destruct (flat_map_Q_ends (l1 :: l2 :: ls)) as [x Hx]; [discriminate|].
-  unfold format_line.
-  assert (Hlen : exists n, List.length ((a ++ EQc :: b) ++ flat_map Q (l1 :: l2 :: ls) ++ suf) = S n).
-  { rewrite <- app_assoc, app_length. cbn [app List.length]. eexists. rewrite Nat.add_succ_r. reflexivity. }
-  destruct Hlen as [n Hn]. rewrite Hn.
-  rewrite format_iter_S. rewrite find_match_stmt by assumption.
-  rewrite quoted_span_stmt; [| exact Hpre | exact Hw | exists x; exact Hx].
-  rewrite format_iter_S. rewrite find_match_none by exact Hd.
-  rewrite leading_ws_prefix.
-  rewrite convert_pieces; [| discriminate | exact Hs].
-  match goal with
-  | |- replace_all ?F _ _ ?N = _ =>
-      pose proof (replace_all_stmt (a ++ EQc :: b) (x ++ [SQ]) suf N F Hpre Hsuf) as R
-  end.
-  rewrite <- Hx in R. apply R. rewrite !app_length. cbn [List.length]. lia.
-Qed.
-
-(* ---------------------------------------------------------------- evaluation of the literal *)
 Definition lift (s : chars) (e : ev) : ev :=
-  match e with EvOk v rest => EvOk (s ++ v) rest | e => e end.
+  match e with
+  | EvOk v rest => EvOk (s ++ v) rest
+  | EvSyntax => EvSyntax
+  | EvUnsupported => EvUnsupported
+  end.
+
+Lemma lift_app a b e : lift (a ++ b) e = lift a (lift b e).
+Proof. destruct e; simpl; [rewrite app_assoc|..]; reflexivity. Qed.
+
+Lemma lift_nil e : lift [] e = e.
+Proof. destruct e; reflexivity. Qed.
+
+(* ---------------------------------------------------------------- one character through repr and back *)
+(* finite table: 2 quote characters x 256 bytes, by computation *)
+Lemma short_step q c r f : q = SQ \/ q = DQ ->
+  eval_short (S f) q (repr_char q c ++ r) = lift [c] (eval_short f q r).
+Proof.
+  intros [-> | ->]; destruct c as [[] [] [] [] [] [] [] []]; reflexivity.
+Qed.
+
+(* ... and through unicode_escape into a triple-quoted literal and back (the double quote aside) *)
+Lemma triple_step c r f : c <> DQ ->
+  eval_triple (S f) (esc_char c ++ r) = lift [c] (eval_triple f r).
+Proof.
+  intro H. destruct c as [[] [] [] [] [] [] [] []]; try reflexivity. exfalso. apply H. reflexivity.
+Qed.
+
+Lemma esc_char_head c : c <> DQ -> exists h t, esc_char c = h :: t /\ ceq DQ h = false.
+Proof.
+  intro H. destruct c as [[] [] [] [] [] [] [] []];
+    try (eexists; eexists; split; [reflexivity | reflexivity]). exfalso. apply H. reflexivity.
+Qed.
+
+Lemma esc_char_no_nl c : has NL (esc_char c) = false.
+Proof. destruct c as [[] [] [] [] [] [] [] []]; reflexivity. Qed.
+
+Lemma esc_char_length c : 1 <= List.length (esc_char c).
+Proof. destruct c as [[] [] [] [] [] [] [] []]; simpl; lia. Qed.
 
 Lemma eval_triple_S f l :
   eval_triple (S f) l =
@@ -469,99 +100,198 @@ Lemma eval_triple_S f l :
        end.
 Proof. reflexivity. Qed.
 
-(* a segment through which evaluation copies characters: no backslash, and no position where three
-   double quotes start, whatever follows the segment *)
-Definition seg_ok (s : chars) : Prop :=
-  has BS s = false /\ forall r u v, s = u ++ v -> v <> [] -> is_prefix DQ3 (v ++ r) = false.
+Lemma dq_step r f : is_prefix DQ3 (DQ :: r) = false ->
+  eval_triple (S f) (DQ :: r) = lift [DQ] (eval_triple f r).
+Proof. intro H. rewrite eval_triple_S, H. reflexivity. Qed.
 
-Lemma eval_seg s : seg_ok s -> forall r f, eval_triple (List.length s + f) (s ++ r) = lift s (eval_triple f r).
+Lemma escdq_step r f : eval_triple (S f) (BS :: DQ :: r) = lift [DQ] (eval_triple f r).
+Proof. reflexivity. Qed.
+
+(* more fuel never changes a successful evaluation *)
+Lemma eval_triple_mono : forall f l v r, eval_triple f l = EvOk v r ->
+  forall f', f <= f' -> eval_triple f' l = EvOk v r.
 Proof.
-  induction s as [|c s IH]; intros [Hb Hq] r f.
-  - cbn. destruct (eval_triple f r); reflexivity.
-  - apply has_cons_false in Hb as [Hc Hb]. cbn [List.length app Nat.add]. rewrite eval_triple_S.
-    pose proof (Hq r [] (c :: s) eq_refl ltac:(discriminate)) as Hp. cbn [app] in Hp. rewrite Hp, Hc.
-    rewrite IH.
-    + destruct (eval_triple f r); reflexivity.
-    + split; [exact Hb|]. intros r' u v E Hv. apply (Hq r' (c :: u) v); [rewrite E; reflexivity | exact Hv].
+  induction f as [|f IH]; intros l v r H f' Hf; [discriminate|].
+  destruct f' as [|f']; [lia|]. rewrite eval_triple_S in *.
+  destruct (is_prefix DQ3 l); [exact H|].
+  destruct l as [|c l]; [discriminate|].
+  destruct (ceq c BS).
+  - destruct (escape l) as [v0 r0| |]; try discriminate.
+    destruct (eval_triple f r0) as [v1 r1| |] eqn:E; try discriminate.
+    rewrite (IH _ _ _ E f') by lia. exact H.
+  - destruct (eval_triple f l) as [v1 r1| |] eqn:E; try discriminate.
+    rewrite (IH _ _ _ E f') by lia. exact H.
 Qed.
 
-Lemma seg_ok_app s1 s2 : seg_ok s1 -> seg_ok s2 -> seg_ok (s1 ++ s2).
+(* ---------------------------------------------------------------- esc3: induction principle *)
+Definition starts3 (l : chars) : bool :=
+  match l with c :: d :: e :: _ => ceq c DQ && ceq d DQ && ceq e DQ | _ => false end.
+
+Lemma esc3_triple r : esc3 (DQ :: DQ :: DQ :: r) = [BS; DQ; BS; DQ; BS; DQ] ++ esc3 r.
+Proof. reflexivity. Qed.
+
+Lemma esc3_other c r : starts3 (c :: r) = false -> esc3 (c :: r) = esc_char c ++ esc3 r.
 Proof.
-  intros [Hb1 Hq1] [Hb2 Hq2]. split; [rewrite has_app, Hb1, Hb2; reflexivity|].
-  intros r u v E Hv. apply app_eq_app in E as [w [[E1 E2]|[E1 E2]]].
-  - (* s1 = u ++ w, v = w ++ s2 *)
-    subst v. destruct w as [|c w].
-    + cbn [app]. apply (Hq2 r [] s2 eq_refl). exact Hv.
-    + rewrite <- app_assoc. apply (Hq1 (s2 ++ r) u (c :: w) E1). discriminate.
-  - (* u = s1 ++ w, s2 = w ++ v *)
-    apply (Hq2 r w v E2 Hv).
+  intro H. destruct r as [|d [|e r']]; try reflexivity.
+  cbn [starts3] in H. cbn [esc3]. rewrite H. reflexivity.
 Qed.
 
-Lemma seg_ok_nil : seg_ok [].
+Lemma starts3_true l : starts3 l = true -> exists r, l = DQ :: DQ :: DQ :: r.
 Proof.
-  split; [reflexivity|]. intros r u v E Hv. symmetry in E. apply app_eq_nil in E as [_ ->]. congruence.
+  destruct l as [|c [|d [|e r]]]; try discriminate. cbn [starts3]. intro H.
+  apply andb_true_iff in H as [H He]. apply andb_true_iff in H as [Hc Hd].
+  apply ceq_eq in Hc, Hd, He. subst. exists r. reflexivity.
 Qed.
 
-Lemma seg_ok_uniform c k : ceq c BS = false -> ceq DQ c = false -> seg_ok (repeat c k).
+Lemma esc3_ind (P : chars -> Prop) :
+  P [] -> (forall r, P r -> P (DQ :: DQ :: DQ :: r)) ->
+  (forall c r, starts3 (c :: r) = false -> P r -> P (c :: r)) -> forall l, P l.
 Proof.
-  intros Hb Hd. split.
-  - apply has_false. intros x Hx. apply repeat_spec in Hx. subst. apply ceq_neq. exact Hb.
-  - intros r u v E Hv. destruct v as [|d v]; [congruence|].
-    assert (d = c). { apply (repeat_spec k c d). rewrite E. apply in_or_app. right. left. reflexivity. }
-    subst. unfold DQ3. cbn [app is_prefix]. rewrite Hd. reflexivity.
+  intros H0 H3 H1 l.
+  assert (Hn : forall n l, List.length l <= n -> P l).
+  { induction n as [|n IH]; intros l0 Hl.
+    - destruct l0; [exact H0 | simpl in Hl; lia].
+    - destruct l0 as [|c r]; [exact H0|].
+      destruct (starts3 (c :: r)) eqn:E.
+      + apply starts3_true in E as [r' E]. rewrite E. apply H3. apply IH.
+        rewrite E in Hl. simpl in Hl. lia.
+      + apply H1; [exact E|]. apply IH. simpl in Hl. lia. }
+  apply (Hn (List.length l)). lia.
 Qed.
 
-Lemma is_prefix_dq3_nl l r : is_prefix DQ3 l = false -> is_prefix DQ3 (l ++ NL :: r) = false.
+Lemma esc3_no_nl : forall l, has NL (esc3 l) = false.
 Proof.
-  unfold DQ3. destruct l as [|c1 [|c2 [|c3 l]]]; cbn [app is_prefix]; intro H.
+  apply esc3_ind.
   - reflexivity.
-  - replace (ceq DQ NL) with false by reflexivity. rewrite !andb_false_r. reflexivity.
-  - replace (ceq DQ NL) with false by reflexivity. rewrite !andb_false_r. reflexivity.
-  - exact H.
+  - intros r IH. rewrite esc3_triple, has_app, IH. reflexivity.
+  - intros c r E IH. rewrite esc3_other by exact E. rewrite has_app, esc_char_no_nl, IH. reflexivity.
 Qed.
 
-Lemma seg_ok_line l : safe_line l = true -> seg_ok (l ++ [NL]).
+Lemma esc3_length : forall l, List.length l <= List.length (esc3 l).
 Proof.
-  unfold safe_line. intro H. apply andb_true_iff in H as [Hs Hd]. apply negb_true_iff in Hd. split.
-  - rewrite has_app, (safe_no BS l Hs) by auto. reflexivity.
-  - clear Hs. induction l as [|c l IH]; intros r u v E Hv.
-    + destruct u as [|x u]; cbn [app] in E.
-      * subst v. reflexivity.
-      * inversion E as [[E1 E2]]. symmetry in E2. apply app_eq_nil in E2 as [_ ->]. congruence.
-    + cbn [has_dq3] in Hd. apply orb_false_iff in Hd as [Hd1 Hd2].
-      destruct u as [|x u]; cbn [app] in E.
-      * subst v. replace ((c :: l ++ [NL]) ++ r) with ((c :: l) ++ NL :: r)
-          by (cbn [app]; rewrite <- app_assoc; reflexivity).
-        apply is_prefix_dq3_nl. exact Hd1.
-      * inversion E as [[E1 E2]]. apply (IH Hd2 r u v E2 Hv).
+  apply esc3_ind.
+  - simpl. lia.
+  - intros r IH. rewrite esc3_triple, app_length. simpl in *. lia.
+  - intros c r E IH. rewrite esc3_other by exact E. rewrite app_length. pose proof (esc_char_length c). simpl. lia.
 Qed.
 
-Lemma seg_ok_ind_line k l : safe_line l = true -> seg_ok (ind_line k l).
+(* what follows a lone double quote is never two more of them *)
+Lemma esc3_head2 l r : is_prefix [DQ; DQ] l = false -> is_prefix [DQ; DQ] (esc3 l ++ NL :: r) = false.
 Proof.
-  intro H. unfold ind_line. destruct (blank (l ++ [NL])); [apply seg_ok_line; exact H|].
-  apply seg_ok_app; [apply seg_ok_uniform; reflexivity | apply seg_ok_line; exact H].
+  intro H. destruct l as [|d l1]; [reflexivity|].
+  destruct (ceq d DQ) eqn:Ed.
+  - apply ceq_eq in Ed. subst d.
+    destruct l1 as [|e l2]; [reflexivity|].
+    assert (He : ceq DQ e = false).
+    { cbn [is_prefix] in H. rewrite ceq_refl in H. cbn [andb] in H. rewrite andb_true_r in H. exact H. }
+    assert (Hs : starts3 (DQ :: e :: l2) = false).
+    { destruct l2; cbn [starts3]; [reflexivity|]. unfold ceq in *. rewrite (Ascii.eqb_sym e DQ), He.
+      rewrite andb_false_r. reflexivity. }
+    rewrite esc3_other by exact Hs.
+    assert (Hs2 : starts3 (e :: l2) = false).
+    { destruct l2 as [|x [|y l3]]; cbn [starts3]; try reflexivity.
+      unfold ceq in *. rewrite (Ascii.eqb_sym e DQ), He. reflexivity. }
+    rewrite esc3_other by exact Hs2.
+    destruct (esc_char_head e) as (h & t & Eh & Hh).
+    { intro E. subst. rewrite ceq_refl in He. discriminate. }
+    rewrite Eh. change (esc_char DQ) with [DQ]. cbn [app is_prefix]. rewrite Hh. rewrite andb_false_r. reflexivity.
+  - assert (Hs : starts3 (d :: l1) = false).
+    { destruct l1 as [|x [|y l3]]; cbn [starts3]; try reflexivity. rewrite Ed. reflexivity. }
+    rewrite esc3_other by exact Hs.
+    destruct (esc_char_head d) as (h & t & Eh & Hh); [apply ceq_neq; exact Ed|].
+    rewrite Eh. cbn [app is_prefix]. rewrite Hh. reflexivity.
 Qed.
 
-Lemma seg_ok_indented k lines : Forall (fun l => safe_line l = true) lines -> seg_ok (indented k lines).
+(* an escaped line, up to its line feed, evaluates back to the line *)
+Lemma eval_esc3 : forall l r f,
+  eval_triple (List.length l + f) (esc3 l ++ NL :: r) = lift l (eval_triple f (NL :: r)).
 Proof.
-  unfold indented. induction 1 as [|l ls H1 H2 IH]; cbn [flat_map]; [apply seg_ok_nil|].
-  apply seg_ok_app; [apply seg_ok_ind_line; exact H1 | exact IH].
+  apply (esc3_ind (fun l => forall r f,
+    eval_triple (List.length l + f) (esc3 l ++ NL :: r) = lift l (eval_triple f (NL :: r)))).
+  - intros r f. cbn. rewrite lift_nil. reflexivity.
+  - intros l IH r f. rewrite esc3_triple. cbn [List.length Nat.add app].
+    rewrite escdq_step, escdq_step, escdq_step, IH.
+    destruct (eval_triple f (NL :: r)); reflexivity.
+  - intros c l E IH r f. rewrite esc3_other by exact E. cbn [List.length Nat.add]. rewrite <- app_assoc.
+    destruct (ceq c DQ) eqn:Ec.
+    + apply ceq_eq in Ec. subst c. change (esc_char DQ) with [DQ]. cbn [app].
+      rewrite dq_step.
+      * rewrite IH. destruct (eval_triple f (NL :: r)); reflexivity.
+      * unfold DQ3. cbn [is_prefix]. rewrite ceq_refl. cbn [andb].
+        change (ceq DQ ?x && (ceq DQ ?y && true)) with (is_prefix [DQ; DQ] (x :: y :: [])).
+        assert (H2 : is_prefix [DQ; DQ] l = false).
+        { destruct l as [|d [|e l']]; try reflexivity.
+          - cbn [is_prefix]. rewrite andb_false_r. reflexivity.
+          - cbn [starts3] in E. rewrite ceq_refl in E. cbn [andb] in E. cbn [is_prefix].
+            unfold ceq in *. rewrite (Ascii.eqb_sym DQ d), (Ascii.eqb_sym DQ e), andb_true_r. exact E. }
+        pose proof (esc3_head2 l r H2) as H3.
+        destruct (esc3 l ++ NL :: r) as [|x [|y t]]; try reflexivity; cbn [is_prefix] in *.
+        -- rewrite andb_false_r. reflexivity.
+        -- exact H3.
+    + rewrite triple_step by (apply ceq_neq; exact Ec).
+      rewrite IH. destruct (eval_triple f (NL :: r)); reflexivity.
 Qed.
 
-(* the value of the embedded literal *)
-Definition embedded (k : nat) (lines : list chars) : chars := NL :: indented k lines ++ spaces k.
+(* ---------------------------------------------------------------- the constants ast.unparse writes *)
+Definition rq (l : chars) : ascii := repr_quote (l ++ [NL]).
+Definition body (l : chars) : chars := flat_map (repr_char (rq l)) (l ++ [NL]).
 
-Lemma seg_ok_embedded k lines : Forall (fun l => safe_line l = true) lines -> seg_ok (embedded k lines).
+Lemma rq_cases l : rq l = SQ \/ rq l = DQ.
+Proof. unfold rq, repr_quote. destruct (has SQ (l ++ [NL]) && negb (has DQ (l ++ [NL]))); auto. Qed.
+
+Lemma piece_eq l : piece l = rq l :: body l ++ [rq l].
+Proof. reflexivity. Qed.
+
+Lemma isq_q q : q = SQ \/ q = DQ -> isq q = true.
+Proof. intros [-> | ->]; reflexivity. Qed.
+
+Lemma repr_char_head q c : q = SQ \/ q = DQ ->
+  exists h t, repr_char q c = h :: t /\ ceq q h = false.
 Proof.
-  intro H. unfold embedded. change (NL :: indented k lines ++ spaces k) with (([] ++ [NL]) ++ indented k lines ++ spaces k).
-  apply seg_ok_app; [apply seg_ok_line; reflexivity|].
-  apply seg_ok_app; [apply seg_ok_indented; exact H | apply seg_ok_uniform; reflexivity].
+  intros [-> | ->]; destruct c as [[] [] [] [] [] [] [] []]; eexists; eexists; split; reflexivity.
+Qed.
+
+Lemma repr_char_length q c : 1 <= List.length (repr_char q c).
+Proof.
+  unfold repr_char. destruct (ceq c q || ceq c BS); [simpl; lia|].
+  repeat match goal with |- context [if ?b then _ else _] => destruct b end; simpl; lia.
+Qed.
+
+Lemma flat_map_length_ge {X} (f : X -> chars) l : (forall x, 1 <= List.length (f x)) ->
+  List.length l <= List.length (flat_map f l).
+Proof.
+  intro H. induction l as [|x l IH]; simpl; [lia|]. rewrite app_length. specialize (H x). lia.
+Qed.
+
+Lemma body_length l : List.length l + 1 <= List.length (body l).
+Proof.
+  unfold body. pose proof (flat_map_length_ge (repr_char (rq l)) (l ++ [NL]) (repr_char_length (rq l))) as H.
+  rewrite app_length in H. simpl in H. lia.
+Qed.
+
+Lemma body_head l : exists h t, body l = h :: t /\ ceq (rq l) h = false.
+Proof.
+  unfold body. destruct l as [|c l]; cbn [app flat_map].
+  - destruct (repr_char_head (rq []) NL (rq_cases [])) as (h & t & E & H). rewrite E. exists h, (t ++ []). auto.
+  - destruct (repr_char_head (rq (c :: l)) c (rq_cases (c :: l))) as (h & t & E & H). rewrite E.
+    eexists. eexists. split; [reflexivity | exact H].
+Qed.
+
+(* a repr'd constant evaluates back to its string *)
+Lemma eval_short_repr q : q = SQ \/ q = DQ -> forall s r F, List.length s < F ->
+  eval_short F q (flat_map (repr_char q) s ++ q :: r) = EvOk s r.
+Proof.
+  intros Hq. induction s as [|c s IH]; intros r F HF; (destruct F as [|F]; [lia|]).
+  - cbn [flat_map app]. destruct Hq as [-> | ->]; reflexivity.
+  - cbn [flat_map]. rewrite <- app_assoc. rewrite short_step by exact Hq.
+    rewrite IH by (simpl in HF; lia). reflexivity.
 Qed.
 
 Lemma eval_literals_S f seen paren l :
   eval_literals (S f) seen paren l =
   let l := skip_blanks (S (List.length l)) paren l in
   let one := if is_prefix DQ3 l then Some (eval_triple (S (List.length l)) (skipn 3 l))
+             else if is_prefix [SQ; SQ; SQ] l then Some EvUnsupported
              else match l with
                   | c :: r => if ceq c SQ || ceq c DQ then Some (eval_short (S (List.length l)) c r) else None
                   | [] => None
@@ -575,53 +305,548 @@ Lemma eval_literals_S f seen paren l :
   end.
 Proof. reflexivity. Qed.
 
-Lemma skip_blanks_dq3 f paren r : skip_blanks (S f) paren (DQ3 ++ r) = DQ3 ++ r.
-Proof. destruct paren; reflexivity. Qed.
+Lemma skip_blanks_q f paren q r : q = SQ \/ q = DQ -> skip_blanks (S f) paren (q :: r) = q :: r.
+Proof. intros [-> | ->]; destruct paren; reflexivity. Qed.
+
+(* one constant at the head of a sequence of literals *)
+Lemma eval_literals_piece f seen paren l rest :
+  eval_literals (S f) seen paren (piece l ++ rest)
+  = lift (l ++ [NL]) (eval_literals f true paren rest).
+Proof.
+  rewrite piece_eq. destruct (body_head l) as (h & t & Eb & Hh). rewrite Eb.
+  rewrite eval_literals_S. cbv zeta. cbn [app].
+  rewrite skip_blanks_q by apply rq_cases.
+  assert (E1 : is_prefix DQ3 (rq l :: h :: (t ++ [rq l]) ++ rest) = false).
+  { unfold DQ3. cbn [is_prefix]. destruct (rq_cases l) as [E|E]; rewrite E in *.
+    - reflexivity.
+    - rewrite Hh. rewrite andb_false_r. reflexivity. }
+  assert (E2 : is_prefix [SQ; SQ; SQ] (rq l :: h :: (t ++ [rq l]) ++ rest) = false).
+  { cbn [is_prefix]. destruct (rq_cases l) as [E|E]; rewrite E in *.
+    - rewrite Hh. rewrite andb_false_r. reflexivity.
+    - reflexivity. }
+  rewrite E1, E2.
+  assert (E3 : ceq (rq l) SQ || ceq (rq l) DQ = true) by (destruct (rq_cases l) as [E|E]; rewrite E; reflexivity).
+  rewrite E3.
+  replace (h :: (t ++ [rq l]) ++ rest) with (body l ++ rq l :: rest)
+    by (rewrite Eb; cbn [app]; rewrite <- app_assoc; reflexivity).
+  unfold body. rewrite eval_short_repr; [| apply rq_cases |].
+  - destruct (eval_literals f true paren rest); reflexivity.
+  - fold (body l). pose proof (body_length l). rewrite app_length. cbn [List.length]. rewrite app_length.
+    cbn [List.length]. lia.
+Qed.
+
+Lemma eval_literals_pieces paren tail : forall lines seen F, List.length lines < F ->
+  eval_literals F seen paren (pieces lines ++ tail)
+  = lift (joined lines)
+         (eval_literals (F - List.length lines) (match lines with [] => seen | _ => true end) paren tail).
+Proof.
+  induction lines as [|l ls IH]; intros seen F HF.
+  - cbn. rewrite Nat.sub_0_r, lift_nil. reflexivity.
+  - destruct F as [|F]; [lia|]. unfold pieces, joined. cbn [flat_map]. rewrite <- app_assoc.
+    rewrite eval_literals_piece. fold (pieces ls). rewrite IH by (simpl in HF; lia).
+    rewrite <- lift_app. cbn [List.length Nat.sub].
+    destruct ls; reflexivity.
+Qed.
 
 Lemma eval_literals_end f paren suf : suf = [] \/ suf = [")"] -> eval_literals (S f) true paren suf = EvOk [] suf.
 Proof. intros [->| ->]; destruct paren; reflexivity. Qed.
 
-Lemma eval_embedded k lines suf paren :
-  Forall (fun l => safe_line l = true) lines -> suf = [] \/ suf = [")"] ->
-  forall f, List.length (DQ3 ++ embedded k lines ++ DQ3 ++ suf) <= f ->
-  eval_literals (S f) false paren (DQ3 ++ embedded k lines ++ DQ3 ++ suf) = EvOk (embedded k lines) suf.
+Lemma pieces_length lines : List.length lines <= List.length (pieces lines).
 Proof.
-  intros Hl Hsuf f Hf. rewrite eval_literals_S. cbv zeta.
-  rewrite !skip_blanks_dq3.
-  rewrite is_prefix_app. change (skipn 3 (DQ3 ++ embedded k lines ++ DQ3 ++ suf)) with (embedded k lines ++ DQ3 ++ suf).
-  set (X := embedded k lines) in *.
-  replace (S (List.length (DQ3 ++ X ++ DQ3 ++ suf))) with (List.length X + S (3 + 3 + List.length suf))
-    by (rewrite !app_length; unfold DQ3; cbn [List.length]; lia).
-  rewrite (eval_seg X (seg_ok_embedded k lines Hl)).
-  rewrite eval_triple_S, is_prefix_app. change (skipn 3 (DQ3 ++ suf)) with suf. cbn [lift].
-  destruct f as [|f]; [unfold DQ3 in Hf; cbn [app List.length] in Hf; lia|].
-  rewrite eval_literals_end by exact Hsuf. rewrite !app_nil_r. reflexivity.
+  unfold pieces. apply flat_map_length_ge. intro l. rewrite piece_eq. simpl. lia.
 Qed.
 
-Lemma is_prefix_true_skipn p l : is_prefix p (p ++ l) = true /\ skipn (List.length p) (p ++ l) = l.
-Proof. split; [apply is_prefix_app | apply skipn_app_exact]. Qed.
+(* the untouched statement evaluates to the text *)
+Lemma eval_pieces_stmt paren suf lines : lines <> [] -> suf = [] \/ suf = [")"] ->
+  eval_literals (S (List.length (pieces lines ++ suf))) false paren (pieces lines ++ suf)
+  = EvOk (joined lines) suf.
+Proof.
+  intros Hne Hs. rewrite eval_literals_pieces.
+  - destruct lines as [|l ls]; [congruence|].
+    pose proof (pieces_length (l :: ls)) as Hl. rewrite app_length.
+    replace (S (List.length (pieces (l :: ls)) + List.length suf) - List.length (l :: ls))
+      with (S (List.length (pieces (l :: ls)) + List.length suf - List.length (l :: ls))) by lia.
+    rewrite eval_literals_end by exact Hs. cbn [lift]. rewrite app_nil_r. reflexivity.
+  - pose proof (pieces_length lines). rewrite app_length. lia.
+Qed.
+
+(* ast.literal_eval of the constants *)
+Lemma literal_eval_pieces lines : lines <> [] -> literal_eval (pieces lines) = LOk (joined lines).
+Proof.
+  intro Hne. unfold literal_eval.
+  assert (E : drop_while (fun c => ceq c SP || (code c =? 9)) (pieces lines) = pieces lines).
+  { destruct lines as [|l ls]; [congruence|]. unfold pieces. cbn [flat_map]. rewrite piece_eq. cbn [app drop_while].
+    destruct (rq_cases l) as [E|E]; rewrite E; reflexivity. }
+  rewrite E. pose proof (eval_pieces_stmt false [] lines Hne (or_introl eq_refl)) as H.
+  rewrite app_nil_r in H. rewrite H. reflexivity.
+Qed.
+
+(* ---------------------------------------------------------------- the span of the rewriter *)
+Definition noq (l : chars) : bool := forallb (fun c => negb (isq c)) l.
+
+Lemma upto_q_app a c r : noq a = true -> isq c = true -> upto_q (a ++ c :: r) = Some (a ++ [c], r).
+Proof.
+  intros Ha Hc. induction a as [|x a IH]; cbn [app upto_q].
+  - rewrite Hc. reflexivity.
+  - cbn [noq forallb] in Ha. apply andb_true_iff in Ha as [Hx Ha]. apply negb_true_iff in Hx.
+    rewrite Hx, (IH Ha). reflexivity.
+Qed.
+
+Lemma split_last_q_none w : noq w = true -> split_last_q w = None.
+Proof.
+  induction w as [|x w IH]; intro H; [reflexivity|]. cbn [noq forallb] in H.
+  apply andb_true_iff in H as [Hx Hw]. apply negb_true_iff in Hx. cbn [split_last_q].
+  rewrite (IH Hw), Hx. reflexivity.
+Qed.
+
+Lemma split_last_q_app x c w : noq w = true -> isq c = true ->
+  split_last_q (x ++ c :: w) = Some (x ++ [c], w).
+Proof.
+  intros Hw Hc. induction x as [|y x IH]; cbn [app split_last_q].
+  - rewrite (split_last_q_none w Hw), Hc. reflexivity.
+  - rewrite IH. reflexivity.
+Qed.
+
+Lemma pieces_ends lines : lines <> [] ->
+  exists q1 x q2, pieces lines = q1 :: x ++ [q2] /\ isq q1 = true /\ isq q2 = true.
+Proof.
+  intro Hne. destruct lines as [|l ls]; [congruence|].
+  destruct (exists_last (l := l :: ls)) as (ls' & l' & E); [discriminate|].
+  destruct ls' as [|l0 ls0].
+  - cbn [app] in E. rewrite E. unfold pieces. cbn [flat_map]. rewrite app_nil_r, piece_eq.
+    exists (rq l'), (body l'), (rq l'). repeat split; apply isq_q, rq_cases.
+  - rewrite E. unfold pieces. rewrite flat_map_app. cbn [flat_map app]. rewrite app_nil_r, !piece_eq.
+    exists (rq l0), ((body l0 ++ [rq l0]) ++ flat_map piece ls0 ++ rq l' :: body l'), (rq l').
+    split; [|split; apply isq_q, rq_cases].
+    cbn [app]. f_equal. repeat (rewrite <- app_assoc; cbn [app]). reflexivity.
+Qed.
+
+Lemma quoted_span_stmt pre suf lines : noq pre = true -> noq suf = true -> lines <> [] ->
+  quoted_span (pre ++ pieces lines ++ suf) = Some (pieces lines).
+Proof.
+  intros Hp Hs Hne. destruct (pieces_ends lines Hne) as (q1 & x & q2 & E & H1 & H2). rewrite E.
+  unfold quoted_span. cbn [app]. rewrite upto_q_app by assumption.
+  replace ((x ++ [q2]) ++ suf) with (x ++ q2 :: suf) by (rewrite <- app_assoc; reflexivity).
+  rewrite split_last_q_app by assumption. rewrite last_last. reflexivity.
+Qed.
+
+(* ---------------------------------------------------------------- str.replace of the span *)
+Lemma is_prefix_app p l : is_prefix p (p ++ l) = true.
+Proof. induction p as [|c p IH]; simpl; [reflexivity|]. rewrite ceq_refl. exact IH. Qed.
+
+Lemma skipn_app_exact {X} (p l : list X) : skipn (List.length p) (p ++ l) = l.
+Proof. induction p; simpl; auto. Qed.
+
+Lemma replace_all_absent fuel s h x new : has h s = false -> replace_all fuel s (h :: x) new = s.
+Proof.
+  revert s. induction fuel as [|f IH]; intros s H; [reflexivity|].
+  destruct s as [|c s]; [reflexivity|]. apply has_cons_false in H as [H1 H2].
+  cbn [replace_all is_prefix]. unfold ceq in *. rewrite Ascii.eqb_sym in H1. rewrite H1. cbn [andb].
+  rewrite IH by exact H2. reflexivity.
+Qed.
+
+Lemma replace_all_stmt pre h x suf new fuel : has h pre = false -> has h suf = false ->
+  List.length pre < fuel ->
+  replace_all fuel (pre ++ (h :: x) ++ suf) (h :: x) new = pre ++ new ++ suf.
+Proof.
+  intros Hp Hs. revert fuel. induction pre as [|c pre IH]; intros fuel Hf.
+  - destruct fuel as [|f]; [simpl in Hf; lia|]. cbn [app].
+    change (h :: x ++ suf) with ((h :: x) ++ suf).
+    unfold replace_all; fold replace_all. rewrite is_prefix_app, skipn_app_exact.
+    rewrite replace_all_absent by exact Hs. reflexivity.
+  - destruct fuel as [|f]; [simpl in Hf; lia|]. apply has_cons_false in Hp as [H1 H2].
+    cbn [app replace_all is_prefix]. unfold ceq in *. rewrite Ascii.eqb_sym in H1. rewrite H1. cbn [andb].
+    f_equal. apply IH; [exact H2 | simpl in Hf; lia].
+Qed.
+
+Lemma noq_has l q : noq l = true -> isq q = true -> has q l = false.
+Proof.
+  intros Hn Hq. apply has_false. intros x Hx E. subst. unfold noq in Hn. rewrite forallb_forall in Hn.
+  specialize (Hn q Hx). rewrite Hq in Hn. discriminate.
+Qed.
+
+(* ---------------------------------------------------------------- the escaped, indented text *)
+Lemma split_nl_line l r : has NL l = false -> split_nl (l ++ NL :: r) = l :: split_nl r.
+Proof.
+  induction l as [|c l IH]; intro H.
+  - cbn [app split_nl]. rewrite ceq_refl. reflexivity.
+  - apply has_cons_false in H as [H1 H2]. cbn [app split_nl]. rewrite H1, IH by exact H2. reflexivity.
+Qed.
+
+Lemma split_nl_joined lines : Forall (fun l => has NL l = false) lines ->
+  split_nl (joined lines) = lines ++ [[]].
+Proof.
+  unfold joined. induction 1 as [|l ls H1 H2 IH]; [reflexivity|].
+  cbn [flat_map]. rewrite <- app_assoc. cbn [app]. rewrite split_nl_line by exact H1. rewrite IH. reflexivity.
+Qed.
+
+Definition escaped (lines : list chars) : chars := flat_map (fun l => esc3 l ++ [NL]) lines.
+
+Lemma join_nl_cons x r : r <> [] -> join_nl (x :: r) = x ++ NL :: join_nl r.
+Proof. destruct r; [congruence | reflexivity]. Qed.
+
+Lemma join_escaped lines : join_nl (map esc3 (lines ++ [[]])) = escaped lines.
+Proof.
+  unfold escaped. induction lines as [|l ls IH]; [reflexivity|].
+  cbn [app map flat_map]. rewrite join_nl_cons by (destruct ls; discriminate).
+  rewrite IH, <- app_assoc. reflexivity.
+Qed.
+
+Lemma escaped_ends lines : lines <> [] -> ends_with_nl (escaped lines) = true.
+Proof.
+  intro H. destruct (exists_last H) as (ls & l & ->). unfold escaped, ends_with_nl.
+  rewrite flat_map_app. cbn [flat_map]. rewrite app_nil_r, !rev_app_distr. reflexivity.
+Qed.
+
+Lemma lines_keep_line l r : has NL l = false -> lines_keep (l ++ NL :: r) = (l ++ [NL]) :: lines_keep r.
+Proof.
+  induction l as [|c l IH]; intro H.
+  - cbn [app lines_keep]. rewrite ceq_refl. reflexivity.
+  - apply has_cons_false in H as [H1 H2]. cbn [app lines_keep]. rewrite H1, IH by exact H2. reflexivity.
+Qed.
+
+(* one line of the emitted text / of its value *)
+Definition pad (k : nat) (l : chars) : chars := if blank (esc3 l ++ [NL]) then [] else spaces k.
+Definition emitted (k : nat) (lines : list chars) : chars :=
+  flat_map (fun l => pad k l ++ esc3 l ++ [NL]) lines.
+Definition indented (k : nat) (lines : list chars) : chars :=
+  flat_map (fun l => pad k l ++ l ++ [NL]) lines.
+(* the value of the embedded literal: line feed, the lines (each non-blank one behind k blanks), k blanks *)
+Definition embedded (k : nat) (lines : list chars) : chars := NL :: indented k lines ++ spaces k.
+
+Lemma indent_escaped k lines :
+  indent_text (spaces k) (escaped lines ++ DQ3) = emitted k lines ++ spaces k ++ DQ3.
+Proof.
+  unfold indent_text, emitted, escaped. induction lines as [|l ls IH].
+  - cbn. rewrite app_nil_r. reflexivity.
+  - cbn [flat_map]. rewrite <- !app_assoc. cbn [app]. rewrite lines_keep_line by apply esc3_no_nl.
+    cbn [flat_map]. rewrite IH. unfold pad. destruct (blank (esc3 l ++ [NL])); cbn [app];
+      rewrite <- ?app_assoc; reflexivity.
+Qed.
+
+Lemma convert_pieces lines k off : lines <> [] -> Forall (fun l => has NL l = false) lines ->
+  convert (pieces lines) k off
+  = Some (DQ3 ++ NL :: emitted (k + off) lines ++ spaces (k + off) ++ DQ3).
+Proof.
+  intros Hne Hn. unfold convert. rewrite literal_eval_pieces by exact Hne.
+  rewrite split_nl_joined by exact Hn. rewrite join_escaped. unfold finish.
+  rewrite escaped_ends by exact Hne. rewrite indent_escaped. reflexivity.
+Qed.
+
+(* ---------------------------------------------------------------- evaluation of the emitted literal *)
+Lemma nl_step r f : eval_triple (S f) (NL :: r) = lift [NL] (eval_triple f r).
+Proof. reflexivity. Qed.
+
+Lemma sp_step r f : eval_triple (S f) (SP :: r) = lift [SP] (eval_triple f r).
+Proof. reflexivity. Qed.
+
+Lemma eval_spaces k r f : eval_triple (k + f) (spaces k ++ r) = lift (spaces k) (eval_triple f r).
+Proof.
+  induction k as [|k IH]; [cbn; rewrite lift_nil; reflexivity|].
+  cbn [Nat.add spaces repeat app]. rewrite sp_step. fold (spaces k). rewrite IH.
+  destruct (eval_triple f r); reflexivity.
+Qed.
+
+Lemma eval_line k l r f :
+  eval_triple (List.length (pad k l ++ l ++ [NL]) + f) ((pad k l ++ esc3 l ++ [NL]) ++ r)
+  = lift (pad k l ++ l ++ [NL]) (eval_triple f r).
+Proof.
+  assert (H : forall g, eval_triple (List.length l + S g) (esc3 l ++ NL :: r) = lift (l ++ [NL]) (eval_triple g r)).
+  { intro g. rewrite eval_esc3, nl_step. rewrite <- lift_app. reflexivity. }
+  unfold pad. destruct (blank (esc3 l ++ [NL])).
+  - cbn [app]. rewrite app_length. cbn [List.length]. rewrite <- app_assoc. cbn [app].
+    replace (List.length l + 1 + f) with (List.length l + S f) by lia. apply H.
+  - rewrite !app_length. cbn [List.length]. rewrite <- !app_assoc. cbn [app].
+    replace (List.length (spaces k) + (List.length l + 1) + f)
+      with (List.length (spaces k) + (List.length l + S f)) by lia.
+    unfold spaces at 1. rewrite repeat_length. rewrite eval_spaces, H, <- lift_app. reflexivity.
+Qed.
+
+Lemma eval_emitted k lines r f :
+  eval_triple (List.length (indented k lines) + f) (emitted k lines ++ r)
+  = lift (indented k lines) (eval_triple f r).
+Proof.
+  unfold indented, emitted. induction lines as [|l ls IH].
+  - cbn. rewrite lift_nil. reflexivity.
+  - cbn [flat_map]. rewrite app_length, <- Nat.add_assoc, <- app_assoc.
+    rewrite eval_line, IH, <- lift_app. reflexivity.
+Qed.
+
+Lemma emitted_length k lines : List.length (indented k lines) <= List.length (emitted k lines).
+Proof.
+  unfold indented, emitted. induction lines as [|l ls IH]; cbn [flat_map]; [lia|].
+  rewrite !app_length. pose proof (esc3_length l). cbn [List.length]. lia.
+Qed.
+
+Lemma skip_blanks_dq3 f paren r : skip_blanks (S f) paren (DQ3 ++ r) = DQ3 ++ r.
+Proof. destruct paren; reflexivity. Qed.
+
+Lemma eval_embedded k lines suf paren : suf = [] \/ suf = [")"] ->
+  forall F, List.length (DQ3 ++ NL :: emitted k lines ++ spaces k ++ DQ3 ++ suf) <= F ->
+  eval_literals (S F) false paren (DQ3 ++ NL :: emitted k lines ++ spaces k ++ DQ3 ++ suf)
+  = EvOk (embedded k lines) suf.
+Proof.
+  intros Hsuf F HF. rewrite eval_literals_S. cbv zeta. rewrite !skip_blanks_dq3, is_prefix_app.
+  change (skipn 3 (DQ3 ++ NL :: emitted k lines ++ spaces k ++ DQ3 ++ suf))
+    with (NL :: emitted k lines ++ spaces k ++ DQ3 ++ suf).
+  assert (E : eval_triple (S (List.length (indented k lines) + (k + 1))) (NL :: emitted k lines ++ spaces k ++ DQ3 ++ suf)
+              = EvOk (embedded k lines) suf).
+  { rewrite nl_step, eval_emitted, eval_spaces. cbn [Nat.add]. rewrite eval_triple_S, is_prefix_app.
+    change (skipn 3 (DQ3 ++ suf)) with suf. unfold embedded. cbn [lift]. rewrite !app_nil_r. reflexivity. }
+  rewrite (eval_triple_mono _ _ _ _ E).
+  - destruct F as [|F]; [unfold DQ3 in HF; cbn [app List.length] in HF; lia|].
+    rewrite eval_literals_end by exact Hsuf. rewrite app_nil_r. reflexivity.
+  - pose proof (emitted_length k lines). unfold DQ3. cbn [app List.length]. rewrite !app_length.
+    unfold spaces. rewrite repeat_length. cbn [List.length]. lia.
+Qed.
+
+(* ---------------------------------------------------------------- format_line on the statement *)
+Record good_prefix (a b : chars) : Prop :=
+  { gp_eq : has EQc a = false; gp_qa : noq a = true; gp_qb : noq b = true }.
+
+Lemma noq_prefix a b : good_prefix a b -> noq (a ++ EQc :: b) = true.
+Proof.
+  intros [_ Ha Hb]. unfold noq in *. rewrite forallb_app, Ha. cbn [forallb andb]. rewrite Hb. reflexivity.
+Qed.
+
+Lemma leading_ws_prefix a b x : leading_ws ((a ++ EQc :: b) ++ x) = leading_ws (a ++ EQc :: b).
+Proof.
+  unfold leading_ws. f_equal. induction a as [|c a IH]; cbn [app take_while].
+  - reflexivity.
+  - destruct (is_ws c); [rewrite IH|]; reflexivity.
+Qed.
+
+Lemma format_iter_S f rest cur off :
+  format_iter (S f) rest cur off =
+  match find_match rest with
+  | None => Some cur
+  | Some (_, rest') =>
+      match quoted_span rest with
+      | Some span =>
+          match convert span (leading_ws rest) off with
+          | Some new => format_iter f rest' (replace_all (S (List.length cur)) cur span new) off
+          | None => None
+          end
+      | None => format_iter f rest' cur off
+      end
+  end.
+Proof. reflexivity. Qed.
+
+Lemma noq_suf suf : suf = [] \/ suf = [")"] -> noq suf = true.
+Proof. intros [-> | ->]; reflexivity. Qed.
+
+Definition emitted_stmt (pre suf : chars) (k : nat) (lines : list chars) : chars :=
+  pre ++ (DQ3 ++ NL :: emitted k lines ++ spaces k ++ DQ3) ++ suf.
+
+(* what format_multiline_strings makes of the statement: nothing when the regex does not match, the
+   triple-quoted literal when it matches once *)
+Lemma format_line_stmt a b suf off lines :
+  good_prefix a b -> suf = [] \/ suf = [")"] -> lines <> [] -> Forall (fun l => has NL l = false) lines ->
+  let pre := a ++ EQc :: b in
+  (matches pre suf lines = 0 -> format_line (stmt pre suf lines) off = Some (stmt pre suf lines)) /\
+  (matches pre suf lines = 1 ->
+   format_line (stmt pre suf lines) off = Some (emitted_stmt pre suf (leading_ws pre + off) lines)).
+Proof.
+  intros Hg Hsuf Hne Hn pre. unfold matches, format_line.
+  assert (Hlen : exists n, List.length (stmt pre suf lines) = S (S n)).
+  { unfold stmt, pre. destruct (pieces_ends lines Hne) as (q1 & x & q2 & E & _). rewrite E.
+    exists (S (List.length a + List.length b + List.length x + List.length suf)).
+    rewrite !app_length. cbn [List.length]. rewrite !app_length. cbn [List.length]. lia. }
+  destruct Hlen as [n Hlen]. rewrite Hlen.
+  destruct (find_match (stmt pre suf lines)) as [[t rest']|] eqn:E1;
+    [destruct (find_match rest') as [[t2 r2]|] eqn:E2|]; split; intro Hm; try discriminate.
+  - rewrite format_iter_S, E1. unfold stmt at 1. rewrite quoted_span_stmt;
+      [| apply noq_prefix; exact Hg | apply noq_suf; exact Hsuf | exact Hne].
+    unfold stmt at 1, pre at 1. rewrite leading_ws_prefix. fold pre.
+    rewrite convert_pieces by assumption.
+    rewrite format_iter_S, E2. f_equal.
+    destruct (pieces_ends lines Hne) as (q1 & x & q2 & E & H1 & H2).
+    unfold stmt, emitted_stmt. rewrite E.
+    match goal with
+    | |- replace_all ?F _ _ ?N = _ =>
+        pose proof (replace_all_stmt pre q1 (x ++ [q2]) suf N F) as R
+    end.
+    apply R.
+    + apply noq_has; [apply noq_prefix; exact Hg | exact H1].
+    + apply noq_has; [apply noq_suf; exact Hsuf | exact H1].
+    + rewrite app_length. lia.
+  - rewrite format_iter_S, E1. reflexivity.
+Qed.
 
 (* ---------------------------------------------------------------- the round trip *)
 Theorem embed_roundtrip a b suf paren off lines :
-  good_prefix a b -> suf = [] \/ suf = [")"] ->
-  2 <= List.length lines -> Forall (fun l => safe_line l = true) lines ->
+  good_prefix a b -> suf = [] \/ suf = [")"] -> lines <> [] -> Forall (fun l => has NL l = false) lines ->
   let pre := a ++ EQc :: b in
-  embed pre suf paren off lines = EvOk (embedded (leading_ws pre + off) lines) suf.
+  (matches pre suf lines = 0 -> embed pre suf paren off lines = EvOk (joined lines) suf) /\
+  (matches pre suf lines = 1 ->
+   embed pre suf paren off lines = EvOk (embedded (leading_ws pre + off) lines) suf).
 Proof.
-  intros Hg Hsuf Hlen Hl pre.
+  intros Hg Hsuf Hne Hn pre.
+  destruct (format_line_stmt a b suf off lines Hg Hsuf Hne Hn) as [F0 F1]. fold pre in F0, F1.
+  unfold embed. split; intro Hm.
+  - rewrite (F0 Hm). unfold eval_stmt, stmt. rewrite is_prefix_app, skipn_app_exact.
+    apply eval_pieces_stmt; assumption.
+  - rewrite (F1 Hm). unfold eval_stmt, emitted_stmt. rewrite is_prefix_app, skipn_app_exact.
+    set (k := leading_ws pre + off).
+    match goal with
+    | |- eval_literals _ _ _ ?T = _ =>
+        assert (E : T = DQ3 ++ NL :: emitted k lines ++ spaces k ++ DQ3 ++ suf)
+          by (repeat (rewrite <- app_assoc; cbn [app]); reflexivity);
+        rewrite E
+    end.
+    apply eval_embedded; [exact Hsuf | lia].
+Qed.
+
+(* ---------------------------------------------------------------- when does the regex match exactly once *)
+(* lines without a single quote: every constant is '...' with no quote inside, the greedy chain of
+   groups takes all of them and nothing is left to match *)
+Definition Q (b : chars) : chars := SQ :: b ++ [SQ].
+
+Lemma upto_app c a r : has c a = false -> upto c (a ++ c :: r) = Some (a ++ [c], r).
+Proof.
+  induction a as [|x a IH]; simpl; intro H.
+  - rewrite ceq_refl. reflexivity.
+  - apply has_cons_false in H as [H1 H2]. rewrite H1, IH by exact H2. reflexivity.
+Qed.
+
+Lemma upto_none c l : has c l = false -> upto c l = None.
+Proof.
+  induction l as [|x l IH]; simpl; intro H; [reflexivity|].
+  apply has_cons_false in H as [H1 H2]. rewrite H1, IH by exact H2. reflexivity.
+Qed.
+
+Lemma next_group_Q b rest : has SQ b = false -> next_group (Q b ++ rest) = Some (Q b, rest).
+Proof.
+  intro H. unfold next_group, Q. simpl.
+  replace ((b ++ [SQ]) ++ rest) with (b ++ SQ :: rest) by (rewrite <- app_assoc; reflexivity).
+  rewrite upto_app by exact H. reflexivity.
+Qed.
+
+Lemma next_group_none l : has SQ l = false -> next_group l = None.
+Proof.
+  intro H. unfold next_group.
+  destruct (drop_while is_ws l) as [|c r] eqn:E; [reflexivity|].
+  assert (Hin : In c l).
+  { clear H. revert E. induction l as [|x l IH]; simpl; [discriminate|].
+    destruct (is_ws x); intro E; [right; apply IH; exact E | inversion E; left; reflexivity]. }
+  destruct (ceq c SQ) eqn:Ec; [|reflexivity].
+  apply ceq_eq in Ec. subst. exfalso. exact (proj1 (has_false SQ l) H SQ Hin eq_refl).
+Qed.
+
+Lemma find_j_skip x g r rest : has SQ x = false -> next_group r = Some (g, rest) ->
+  find_j (x ++ SQ :: r) = Some (x ++ SQ :: g, rest).
+Proof.
+  intros Hx Hg. induction x as [|c x IH]; simpl.
+  - rewrite Hg. reflexivity.
+  - apply has_cons_false in Hx as [H1 H2]. rewrite H1, IH by exact H2. reflexivity.
+Qed.
+
+Lemma chain_S f l : chain (S f) l = match next_group l with
+                                     | Some (g, rest) => let '(a, b) := chain f rest in (g ++ a, b)
+                                     | None => ([], l)
+                                     end.
+Proof. reflexivity. Qed.
+
+Lemma chain_Q bs suf : Forall (fun b => has SQ b = false) bs -> has SQ suf = false ->
+  forall fuel, List.length bs <= fuel -> chain fuel (flat_map Q bs ++ suf) = (flat_map Q bs, suf).
+Proof.
+  intros Hl Hs. induction Hl as [|l ls H1 H2 IH]; intros fuel Hf; cbn [flat_map].
+  - destruct fuel; [reflexivity|]. rewrite chain_S. simpl app. rewrite next_group_none by exact Hs. reflexivity.
+  - destruct fuel as [|fuel]; [simpl in Hf; lia|]. rewrite chain_S.
+    rewrite <- app_assoc. rewrite next_group_Q by exact H1.
+    rewrite IH by (simpl in Hf; lia). reflexivity.
+Qed.
+
+Lemma find_match_gen a b x1 g2 R gs r3 :
+  has EQc a = false -> has SQ b = false -> has SQ x1 = false ->
+  next_group (g2 ++ R) = Some (g2, R) -> chain (List.length R) R = (gs, r3) ->
+  find_match (a ++ EQc :: b ++ SQ :: x1 ++ SQ :: g2 ++ R)
+  = Some ((a ++ [EQc]) ++ (b ++ [SQ]) ++ (x1 ++ SQ :: g2) ++ gs ++ take_while is_ws r3,
+          drop_while is_ws r3).
+Proof.
+  intros He Hb Hx Hg Hc. unfold find_match.
+  rewrite upto_app by exact He. rewrite upto_app by exact Hb.
+  rewrite (find_j_skip x1 g2 (g2 ++ R) R Hx Hg). rewrite Hc. reflexivity.
+Qed.
+
+Lemma upto_rest_incl c : forall l a r, upto c l = Some (a, r) -> incl r l.
+Proof.
+  induction l as [|y l IH]; simpl; intros a r E; [discriminate|].
+  destruct (ceq y c).
+  - inversion E; subst. intros x Hx. right. exact Hx.
+  - destruct (upto c l) as [[a' b']|] eqn:E'; [|discriminate]. inversion E; subst.
+    intros x Hx. right. eapply IH; [reflexivity | exact Hx].
+Qed.
+
+Lemma find_match_none l : has SQ l = false -> find_match l = None.
+Proof.
+  intro H. unfold find_match. destruct (upto EQc l) as [[a r0]|] eqn:E; [|reflexivity].
+  assert (Hr : has SQ r0 = false).
+  { apply has_false. intros x Hx. apply (proj1 (has_false SQ l) H). eapply upto_rest_incl; eassumption. }
+  rewrite upto_none by exact Hr. reflexivity.
+Qed.
+
+Lemma repr_char_noq c : c <> SQ -> has SQ (repr_char SQ c) = false.
+Proof.
+  intro H. destruct c as [[] [] [] [] [] [] [] []]; try reflexivity. exfalso. apply H. reflexivity.
+Qed.
+
+Lemma piece_noq l : has SQ l = false -> piece l = Q (body l) /\ has SQ (body l) = false.
+Proof.
+  intro H.
+  assert (Hq : rq l = SQ).
+  { unfold rq, repr_quote. rewrite has_app, H. reflexivity. }
+  split; [rewrite piece_eq, Hq; reflexivity|].
+  unfold body. rewrite Hq. apply has_false. intros x Hx. apply in_flat_map in Hx as (c & Hc & Hx).
+  assert (Hne : c <> SQ).
+  { apply in_app_or in Hc as [Hc|[<-|[]]]; [exact (proj1 (has_false SQ l) H c Hc) | discriminate]. }
+  exact (proj1 (has_false SQ _) (repr_char_noq c Hne) x Hx).
+Qed.
+
+Lemma pieces_noq lines : Forall (fun l => has SQ l = false) lines ->
+  pieces lines = flat_map Q (map body lines) /\ Forall (fun b => has SQ b = false) (map body lines).
+Proof.
+  unfold pieces. induction 1 as [|l ls H1 H2 [IH1 IH2]]; [split; [reflexivity | constructor]|].
+  destruct (piece_noq l H1) as [E Hb]. cbn [flat_map map]. rewrite E, IH1. split; [reflexivity|].
+  constructor; assumption.
+Qed.
+
+Lemma take_while_incl p l : incl (take_while p l) l.
+Proof.
+  induction l as [|c l IH]; simpl; [intros x []|]. destruct (p c); [|intros x []].
+  intros x [<-|Hx]; [left; reflexivity | right; apply IH; exact Hx].
+Qed.
+
+Lemma drop_while_incl p l : incl (drop_while p l) l.
+Proof.
+  induction l as [|c l IH]; simpl; [intros x []|]. destruct (p c); [|intros x Hx; exact Hx].
+  intros x Hx. right. apply IH. exact Hx.
+Qed.
+
+Lemma flat_map_Q_length bs : List.length bs <= List.length (flat_map Q bs).
+Proof. apply flat_map_length_ge. intro b. unfold Q. simpl. lia. Qed.
+
+Theorem one_match_without_quote a b suf lines :
+  good_prefix a b -> suf = [] \/ suf = [")"] -> 2 <= List.length lines ->
+  Forall (fun l => has SQ l = false) lines ->
+  matches (a ++ EQc :: b) suf lines = 1.
+Proof.
+  intros Hg Hsuf Hlen Hq. destruct (pieces_noq lines Hq) as [E Hb].
   destruct lines as [|l1 [|l2 ls]]; [simpl in Hlen; lia | simpl in Hlen; lia |].
-  assert (Hs : Forall (fun l => forallb safe_char l = true) (l1 :: l2 :: ls)).
-  { eapply Forall_impl; [|exact Hl]. intros l H. unfold safe_line in H. apply andb_true_iff in H as [H _]. exact H. }
-  assert (Hq : has SQ suf = false) by (destruct Hsuf as [->| ->]; reflexivity).
-  subst pre. unfold embed, stmt. rewrite pieces_safe by exact Hs.
-  rewrite format_line_stmt by assumption.
-  unfold eval_stmt. rewrite is_prefix_app, skipn_app_exact.
-  set (k := leading_ws (a ++ EQc :: b) + off).
-  match goal with
-  | |- eval_literals _ _ _ ?T = _ =>
-      assert (E : T = DQ3 ++ embedded k (l1 :: l2 :: ls) ++ DQ3 ++ suf)
-        by (unfold embedded; repeat (rewrite <- app_assoc; cbn [app]); reflexivity);
-      rewrite E
-  end.
-  apply eval_embedded; [exact Hl | exact Hsuf | lia].
+  cbn [map] in *. inversion Hb as [|? ? Hb1 Hb']; subst. inversion Hb' as [|? ? Hb2 Hb'']; subst.
+  assert (Hs : has SQ suf = false) by (destruct Hsuf as [-> | ->]; reflexivity).
+  unfold matches, stmt. rewrite E.
+  assert (Eshape : (a ++ EQc :: b) ++ flat_map Q (body l1 :: body l2 :: map body ls) ++ suf
+                   = a ++ EQc :: b ++ SQ :: body l1 ++ SQ :: Q (body l2) ++ (flat_map Q (map body ls) ++ suf)).
+  { cbn [flat_map]. unfold Q at 1. repeat (rewrite <- app_assoc; cbn [app]). reflexivity. }
+  rewrite Eshape.
+  rewrite (find_match_gen a b (body l1) (Q (body l2)) (flat_map Q (map body ls) ++ suf)
+             (flat_map Q (map body ls)) suf).
+  - rewrite find_match_none; [reflexivity|].
+    eapply has_incl; [apply drop_while_incl | exact Hs].
+  - apply Hg.
+  - apply noq_has; [apply Hg | reflexivity].
+  - exact Hb1.
+  - apply next_group_Q. exact Hb2.
+  - apply chain_Q; [exact Hb'' | exact Hs |]. rewrite app_length. pose proof (flat_map_Q_length (map body ls)). lia.
 Qed.
